@@ -8,7 +8,8 @@ ATOMS_FULL = ["a", "b", "0", "-", " ", "_",
               ".", "\\d", "\\s", "\\w",
               "[ab]", "[^a]", "[a-c]", "[a\\-c]", "[+*]", "[\\d_]", "[^a-c0]", "[.]", "[(|)]", "[a-]", "[\\]a]",
               "[^\\d]", "[^\\-a]", "[^\\]]", "[\\^a]", "[^\\w]", "[^b^]", "[a^]",
-              "[\\d.]", "[\\w+]", "[.\\d]", "\\\\d", "[\\s ]", "[\\\\d]", "[^^a]", "[^a^]"]
+              "[\\d.]", "[\\w+]", "[.\\d]", "\\\\d", "[\\s ]", "[\\\\d]", "[^^a]", "[^a^]",
+              "[-a]", "[^-a]", "[^-a-c]", "[^a-]", "[^\\s]", "[^\\n]", "[\\n]"]
 ATOMS_SMALL = ["a", ".", "[ab]", "\\d", "\\+", "[^a]"]
 QUANTS = ["", "*", "+", "?", "{0}", "{1}", "{2}", "{0,1}", "{1,2}", "{2,2}", "{0,0}", "{1,1}", "{2,3}"]
 QUANTS_SMALL = ["", "*", "+", "?", "{2}", "{1,2}", "{0,1}"]
@@ -117,7 +118,7 @@ def has_zero_min(node):
     return any(isinstance(x, tuple) and has_zero_min(x) for x in node[1:])
 
 
-ALPHA12 = ["a", "b", "c", "0", "-", " ", "+", ".", "(", ")", "|", "\\", "_", "^", "]"]
+ALPHA12 = ["a", "b", "c", "0", "-", " ", "+", ".", "(", ")", "|", "\\", "_", "^", "]", "\n"]
 ALPHA4 = ["a", "b", "0", "-"]
 
 
